@@ -792,21 +792,24 @@ ROUTES = {
     "p.resize((1, 3))": ("resize", "not-in-place", lambda p: p.resize((1, 3))),
     "np.add(p, 1000, out=p)": ("ufunc-out", "invalidates", lambda p: np.add(p, 1000.0, out=p)),
     "np.multiply(a, .99, out=p)": ("ufunc-out", "invalidates", lambda p: np.multiply(np.asarray(p), 0.99, out=p)),
-    "np.add.at(p, (0, 0), 5000)": ("c-level-write", "stale", lambda p: np.add.at(p, (0, 0), 5000.0)),
+    "np.add.at(p, (0, 0), 5000)": ("flat-iterator-buffer", "stale", lambda p: np.add.at(p, (0, 0), 5000.0)),
     "p.clip(0, 5e6, out=p)": ("ufunc-out", "invalidates", lambda p: p.clip(0, 5e6, out=p)),
     "p.round(-3, out=p)": ("ufunc-out", "invalidates", lambda p: p.round(-3, out=p)),
-    "np.cumsum(a, axis=0, out=p)": ("c-level-write", "stale", lambda p: np.cumsum(np.asarray(p), axis=0, out=p)),
+    "np.cumsum(a, axis=0, out=p)": ("function", "invalidates", lambda p: np.cumsum(np.asarray(p), axis=0, out=p)),
     "np.matmul(a, m, out=p)": ("ufunc-out", "invalidates", lambda p: np.matmul(np.asarray(p), np.eye(3) * 0.99, out=p)),
-    "np.dot(a, m, out=p)": ("c-level-write", "stale", lambda p: np.dot(np.asarray(p), np.eye(3) * 0.99, out=p)),
-    "np.take(a, idx, axis=0, out=p)": ("c-level-write", "stale", lambda p: np.take(np.asarray(p), list(range(len(p)))[::-1], axis=0, out=p)),
-    "np.copyto(p, v)": ("c-level-write", "stale", lambda p: np.copyto(p, np.asarray(p) * 0.99)),
+    "np.dot(a, m, out=p)": ("function", "invalidates", lambda p: np.dot(np.asarray(p), np.eye(3) * 0.99, out=p)),
+    "np.take(a, idx, axis=0, out=p)": ("function", "invalidates", lambda p: np.take(np.asarray(p), list(range(len(p)))[::-1], axis=0, out=p)),
+    "np.copyto(p, v)": ("function", "invalidates", lambda p: np.copyto(p, np.asarray(p) * 0.99)),
     "p.fill(v)": ("method", "invalidates", lambda p: p.fill(6.0e6)),
     "p.put(0, v)": ("method", "invalidates", lambda p: p.put(0, 1.3e6)),
     "np.put(p, 0, v)": ("method", "invalidates", lambda p: np.put(p, 0, 1.3e6)),
-    "np.place(p, mask, v)": ("c-level-write", "stale", lambda p: np.place(p, np.asarray(p) > 6e6, 6.1e6)),
-    "np.putmask(p, mask, v)": ("c-level-write", "stale", lambda p: np.putmask(p, np.asarray(p) > 6e6, 6.1e6)),
+    "np.place(p, mask, v)": ("function", "invalidates", lambda p: np.place(p, np.asarray(p) > 6e6, 6.1e6)),
+    "np.putmask(p, mask, v)": ("function", "invalidates", lambda p: np.putmask(p, np.asarray(p) > 6e6, 6.1e6)),
     "p.setfield(v, float)": ("method", "invalidates", lambda p: p.setfield(6.0e6, np.float64)),
     "p.byteswap(inplace=True)": ("method", "invalidates", lambda p: p.byteswap(inplace=True)),
+    "np.copyto(dst=p, src=v)": ("function", "invalidates", lambda p: np.copyto(dst=p, src=np.asarray(p) * 0.99)),
+    "np.fill_diagonal(p, v)": ("function", "invalidates", lambda p: np.fill_diagonal(p, 6.0e6)),
+    "np.sum(a, axis=0, out=p[0])": ("function", "invalidates", lambda p: np.sum(np.asarray(p), axis=0, out=p[0])),
     "p.sort(axis=0)": ("method", "invalidates", lambda p: p.sort(axis=0)),
     "p.partition(1, axis=0)": ("method", "invalidates", lambda p: p.partition(1, axis=0)),
     "p.flat[0] = v": ("flat-iterator-buffer", "stale", lambda p: p.flat.__setitem__(0, 1.3e6)),
